@@ -39,11 +39,26 @@ CHECKS = {
     text="Exploration: CNFs from 0 to 300 variables / 1000 clauses, all 27 fixed/shuffle/explicit argument combinations (lists, tuples, ranges), invalid explicit arguments (must raise ValueError), seeded and adversarial RNG, cnfshuffle with all 8 switch combinations (object and text path) and '-T shuffle' through cnfgen.  Output == input renamed by the reported witness position by position; explicit/fixed arguments applied exactly; counts, width multiset and model count preserved; for N <= 5 all N!*2^N signed renamings searched.",
     note="Hook CNFGEN_VERIF=1 in cnfgen/transformations/shuffle.py (add-only).  Literal order inside a clause is not judged.",
     design="5/C09"),
+ "C10": dict(
+    technique="runtime monitoring: hook wrappers on clause/constraint insertion, group creation and variable-count updates armed around every monitored entry point; final-state scan; documented closed-form counts",
+    text="Exploration: 47 library entries at realistic sizes under CNF and OPB classes, transformation chains of length 0-3 (sized so that substitution blow-up stays bounded), ~600 command lines (realistic and small corpora, cnfgen with -T chains and pbgen), 3200 random interleavings of group creation / checked clause insertion / variable-count raises per run.  Observed: every inserted clause's variables, every identifier a new group receives (must not be among those already mentioned), monotonic declared count; returned formulas scanned literal by literal; declared count compared with the documented closed form.  Thorough also runs the repository's own tests with the hooks armed.",
+    note="Hooks are installed from outside by rebinding class attributes (no repository edit).  Clauses inserted by *user* code with check=False are outside the statement.",
+    design="5/C10"),
+ "C12": dict(
+    technique="runtime monitoring: independent OPB reader and LaTeX row parser applied to every rendering path; row-by-row comparison with the in-memory formula",
+    text="Exploration: random CNF/OPB formulas (0..106 rows crossing the 35-row page split up to three pages, coefficients up to 10^30, every operator through normalisation, empty rows, hostile but brace-balanced names), enumerated tiny formulas (empty formula vs empty clause), 72 family command lines with their real names, every rendering path (to_opb, to_latex, to_file by format / extension / file object, cnfgen -of, pbgen, real processes), header and varnames on/off; comment shield with multi-line header values and names.",
+    note="Readers in vmon/refmodels/c12_*.py are trusted; LaTeX names are compared modulo brace placement; term order inside a row is not judged.",
+    design="5/C12"),
  "C13": dict(
     technique="runtime monitoring: result shape + planted assignments + decoded linear system vs truth table, against a reference enumeration of compatible clauses/parities; bounded RNG adversary forces the dense sampler",
     text="Exploration: RandomKCNF/RandomKXOR for k in 0..4, n in 0..6, m from 0 to max+2 (every m in thorough), 0..3 planted total assignments, seeded and adversarial randomness (sparse sampler driven to exhaustion so the dense path is observed), plus the randkcnf/randkxor command lines.  Each call is judged for counts, distinctness, width, planted assignments, model set = solutions of the decoded system and 'ValueError exactly when infeasible'.",
     note="Trusts the reference enumeration of compatible clauses (itertools) and vmon/tt.py.  Parities with k=0 are judged by clause count only.  Adversarial RNG answers are legal values, i.e. positive-probability outcomes.",
     design="5/C13"),
+ "C15": dict(
+    technique="runtime monitoring: every construction through make_graph_from_spec with arguments inside/at/outside the range, structural oracles and independent references, stage-by-stage option replay under equal RNG/adversary state, taps that observe rare sampler branches",
+    text="Exploration: all simple/bipartite/dag constructions with enumerated arguments (gnm every m, glrm every m up to L*R+1, gnd/regular/glrd every degree incl. non-divisible, grid/torus 1-3 dimensions, ...), options plantclique/plantbiclique/addedges/splitedges from -1 to one past the maximum alone and combined, save in every format read back by independent strict readers, ~340 in-process and some real-process command lines with the graph decoded from the formula; random constructions under fair seeds and the bounded RNG adversary (retry exhaustion, sparse->dense switches observed by counters).  Verdict per request: promised structure or ValueError.",
+    note="Requests meetable but outside the documented domain (N=0, d=0, ...) are accepted either way.  networkx's own samplers draw from random._inst, which the adversary does not control.",
+    design="5/C15"),
  "C16": dict(
     technique="runtime monitoring: history + executable set model compared on every public view after every operation; icontract class invariants on Graph/DirectedGraph/BipartiteGraph",
     text="Exploration: all operation histories of length <= 2 (quick) / <= 3 (thorough) over small alphabets with out-of-range arguments, plus seeded random histories of up to 60 operations from sizes 0..6, on the four graph classes and named constructions.  After every operation every public view (counts, edge listing, membership, neighbour lists, degrees, is_dag) is compared with a set model; refusals must leave no trace; networkx round trip at the end of every history.",
